@@ -26,6 +26,7 @@ def handler(case):
     v, ops, impl, info = ctl.run_scenario(case)
     viols = []
     T = F(case["spec"]["ctrl"]["T"]); dt = F(case["dt"])
+    info = ctl.last_iteration(info)          # two-iteration scenarios: the second one has to come back to normal
     steps = [r for r in info if r["phase"] == "step"]
     last_failed = max([r["k"] for r in steps if r["failed"] or r.get("ict_failed")] + [0])
     bound = math.ceil(T / dt) + 3
@@ -126,6 +127,8 @@ def gen(rng, nm, na):
     for j, c in enumerate(cases):
         if j % 5 == 0:
             reclose_then_own_line(rng, c)
+        if j % 6 == 4:
+            ctl.add_second(rng, c)       # two iterations on the same objects (reset_system between), the first ends mid-outage
     for j in range(na):
         c = ctl.gen_scenario(rng, max_lines=5, ctrl="main")
         if j % 5 == 4:
@@ -187,6 +190,8 @@ def gen(rng, nm, na):
                         for _ in range(rng.choice([1, 1, 2])):
                             kk = max(1, kr - rng.choice([0, 1, 1, 2]))
                             c["faults"].setdefault(str(kk), []).append([f"IL{rng.randrange(len(ict['lines']))}", str(rng.choice([F(2), F(3), F(7, 2)]))])
+        if j % 6 == 1:
+            ctl.add_second(rng, c)
         if c["spec"]["ctrl"]["type"] == "main" and rng.random() < 0.4:
             device_failures(rng, c)
         if c["spec"]["ctrl"]["type"] == "main" and rng.random() < 0.3:
@@ -202,7 +207,7 @@ def run(res):
     nm, na = (50, 50) if res.tier == "quick" else (1500, 1000)
     res.rule = ("fault histories as in C05 (1-4 overlapping line faults, microgrids in all modes, ties) followed by a quiet tail of ceil((T+3)/dt)+6 increments; "
                 "manual control (model + implementation) and MainController with no ICT network or with a random ICT network in which ~20% of sensors / "
-                "intelligent switches have no ICT node and communication lines fail and are repaired while sections are isolated / reconnected; 30% of the automatic scenarios also have sensors / intelligent switches that fail by themselves (oracle only). non-trivial = distinct (lines, any fault, increments until normal, microgrid, automatic)")
+                "intelligent switches have no ICT node and communication lines fail and are repaired while sections are isolated / reconnected; 30% of the automatic scenarios also have sensors / intelligent switches that fail by themselves (oracle only). every sixth / seventh scenario runs two iterations on the same objects (the first cut short mid-outage, reset_system - model op 'ctl reset' -, then fresh faults). non-trivial = distinct (lines, any fault, increments until normal, microgrid, automatic)")
     run_cases(res, gen(rng, nm, na), handler, compare)
 
 
